@@ -26,7 +26,7 @@ type c08Cfg struct {
 	Deps    [][2]int // i depends on j
 	EpicDep int      // 0 none, 1 E1->E2 (E1 depends on E2), 2 E2->E1
 	E2Gone  bool     // E2 pruned (only when it has no live child)
-	Variant int      // history variant: 0 plain, 1 every task re-assigned from another epic, 2 link/unlink noise, 3 reopened, 4 claim churn, 5 create events in reverse log order, 6 legacy epic state/claim events, 7 created unfiled then filed
+	Variant int      // history variant: 0 plain, 1 every task re-assigned from another epic, 2 link/unlink noise, 3 reopened, 4 claim churn, 5 create events in reverse log order, 6 legacy epic state/claim events, 7 created unfiled then filed, 8 a claim merged in behind the close (C09 only)
 }
 
 var c08Full = []c08Opt{
@@ -137,7 +137,7 @@ func (c c08Cfg) String() string {
 		sb.WriteString(" E2=pruned")
 	}
 	if c.Variant != 0 {
-		sb.WriteString(" history=" + []string{"plain", "reassigned", "link-unlink-noise", "reopened", "claim-churn", "creates-in-reverse-log-order", "legacy-epic-state-events", "created-unfiled-then-filed"}[c.Variant])
+		sb.WriteString(" history=" + []string{"plain", "reassigned", "link-unlink-noise", "reopened", "claim-churn", "creates-in-reverse-log-order", "legacy-epic-state-events", "created-unfiled-then-filed", "claim-merged-in-after-the-close"}[c.Variant])
 	}
 	return sb.String()
 }
@@ -210,6 +210,18 @@ func (c c08Cfg) build() (core.Store, []string, [2]string) {
 		if !c.E2Gone {
 			l.Claim(e[1], "old-agent")
 			l.State(e[1], "canceled")
+		}
+		st = st.WithLog(append(append([]byte{}, st.Log()...), l.Bytes()...))
+	}
+	if c.Variant == 8 {
+		// two clones merged: in one the task was closed, in the other somebody claimed it; the claim lines ended up behind
+		// the close. The task is done / canceled (and shows a claimant); what prune takes is decided by the state alone.
+		l := newSynLog()
+		l.t = l.t.Add(24 * time.Hour)
+		for k, t := range c.Tasks {
+			if c.live(k) && (t.State == "done" || t.State == "canceled") {
+				l.Claim(ids[k], "late-agent")
+			}
 		}
 		st = st.WithLog(append(append([]byte{}, st.Log()...), l.Bytes()...))
 	}
